@@ -406,7 +406,7 @@ def run_shard(ctx):
                     ctx.enumerated(1)
     ctx.subrun("exhaustive_escape_bodies", exhaustive=True, alphabet=ealpha, bodies=n)
     # --- 3. grammar-generated blocks (+ offsets, + through the directive parser)
-    n_g = 6000 if quick else 250000
+    n_g = 20000 if quick else 250000
     for i in range(n_g):
         t = gen_block(R)
         tag = run_one(ctx, t, "block")
@@ -422,7 +422,7 @@ def run_shard(ctx):
             break
     # --- 4. soup
     soup_alpha = list(A1 + A2 + A3 + "é\U0001f600{}[],&*!%@`?") + ["\\x41", "\\u00e9", "\\U0001F600", "\\UFFFFFFFF", "k: ", "\n  ", ": |\n  ", ': "', ": '"]
-    n_s = 6000 if quick else 250000
+    n_s = 20000 if quick else 250000
     for i in range(n_s):
         t = "".join(R.choice(soup_alpha) for _ in range(R.randint(1, 40)))
         outcomes["soup_" + run_one(ctx, t, "soup")] += 1
